@@ -201,6 +201,77 @@ def cases():
             {"name": "sdk_net", "download": sdk, "sources": ["net.c"], "uses": ["sdk_core"]}]
     out.append((dlbase(mods, [{"name": "app_full", "sources": ["main.c"], "depends": ["sdk_core", "sdk_net"]},
                               {"name": "app_net", "sources": ["main.c"], "depends": ["sdk_net"]}]), {}))
+    # 33: the context of an app comes from `defaults: app: context:`; builders outside that context refuse it
+    f = base([], [{"name": "blinky", "sources": ["main.c"]}, {"name": "armtest", "sources": ["main.c"], "allowlist": ["board", "native"]},
+                  {"name": "tool", "sources": ["main.c"], "context": "default"}],
+             contexts=[{"name": "hw", "parent": "default"}, {"name": "sim", "parent": "default"}],
+             builders=[{"name": "board", "parent": "hw"}, {"name": "devkit", "parent": "hw"}, {"name": "native", "parent": "sim"}],
+             defaults={"app": {"context": "hw", "blocklist": ["devkit"]}, "module": {"context": "hw"}})
+    f["laze-project.yml"][0]["modules"] = [{"name": "hwlib", "sources": ["hw.c"]}, {"name": "anylib", "context": "default", "sources": ["any.c"]}]
+    f["laze-project.yml"][0]["apps"][0]["depends"] = ["hwlib", "anylib"]
+    out.append((f, {}))
+    # 34: three and four providers of a feature in the default context; a nearer context shadows the first of
+    #     them with a module that provides nothing: the remaining providers keep their definition order
+    mods = [{"name": "console_uart", "provides": ["console"], "sources": ["cu.c"]}, {"name": "console_rtt", "provides": ["console"], "sources": ["cr.c"]},
+            {"name": "console_usb", "provides": ["console"], "sources": ["cb.c"]}, {"name": "console_net", "provides": ["console"], "sources": ["cn.c"]},
+            {"name": "stdio_uart", "provides_unique": ["stdio"], "sources": ["su.c"]}, {"name": "stdio_rtt", "provides_unique": ["stdio"], "sources": ["sr.c"]},
+            {"name": "stdio_semi", "provides_unique": ["stdio"], "sources": ["ss.c"]},
+            {"name": "console_uart", "context": "board", "sources": ["bu.c"]}, {"name": "stdio_uart", "context": "board", "sources": ["bs.c"]},
+            {"name": "console_rtt", "context": "other", "sources": ["or.c"]}]
+    out.append((base(mods, [{"name": "app_console", "sources": ["main.c"], "selects": ["console"]},
+                            {"name": "app_stdio", "sources": ["main.c"], "selects": ["stdio"]},
+                            {"name": "app_opt", "sources": ["main.c"], "selects": ["?stdio", "?console"]}],
+                     builders=[{"name": "host"}, {"name": "board"}, {"name": "other"}]), {}))
+    # 35: escapes survive exactly one un-escaping also inside rule `export:` values (inline and taken from the env),
+    #     and an expression that reaches a task command through a variable's value is evaluated
+    rules = [{"name": "CC", "in": "c", "out": "o", "cmd": "wrapper ${CC} ${CFLAGS} -c ${in} -o ${out}",
+              "export": [{"HINT": "set \\${CC} to override"}, {"MODE": "mode-\\${CC}-${X}"}, "NOTE", {"SIZE": "$(${KB} * 2)"}]},
+             {"name": "LINK", "in": "o", "cmd": "ld ${in} -o ${out} # ${NOTE}", "export": [{"LHINT": "\\${CC}"}]}]
+    ctx = [{"name": "default", "rules": rules,
+            "env": {"bindir": "${build-dir}/${builder}/${app}", "CC": "gcc", "X": "x", "KB": "256", "NOTE": "see \\${CC} and ${X}",
+                    "FLASH_BYTES": "$(${KB} * 1024)", "MSG": "size=${FLASH_BYTES}"},
+            "tasks": {"size": {"cmd": ["echo ${MSG}", "echo ${FLASH_BYTES} \\${CC}"], "build": False, "export": [{"TOTAL": "${FLASH_BYTES}"}, "NOTE"]},
+                      "plain": {"cmd": ["echo $(1 + 2) ${KB}"], "build": False}}}]
+    out.append(({"laze-project.yml": [{"contexts": ctx, "builders": [{"name": "b0"}, {"name": "b1", "env": {"KB": "512"}}],
+                                       "apps": [{"name": "app", "sources": ["main.c"]}]}]}, {}))
+    # 36: allow/block lists and the context in `defaults: app:` reach apps two files down, through a file whose
+    #     defaults: section only has `module:` (and one whose defaults only have `app:`)
+    f = {"laze-project.yml": [{"contexts": [{"name": "default", "rules": RULES, "env": {"bindir": "${build-dir}/${builder}/${app}"}},
+                                            {"name": "sim", "parent": "default"}, {"name": "hw", "parent": "default"}],
+                               "builders": [{"name": "native", "parent": "sim"}, {"name": "board", "parent": "hw"}, {"name": "b2"}],
+                               "defaults": {"app": {"blocklist": ["sim"], "sources": ["common.c"]}, "module": {"env": {"local": {"CFLAGS": ["-Wall"]}}}},
+                               "subdirs": ["apps", "libs"]}],
+         "apps/laze.yml": [{"defaults": {"module": {"sources": ["m_common.c"]}}, "apps": [{"name": "shell", "sources": ["shell.c"]}], "subdirs": ["extra"]}],
+         "apps/extra/laze.yml": [{"apps": [{"name": "extra", "sources": ["extra.c"], "allowlist": ["native"]}], "modules": [{"name": "extra_mod", "sources": ["em.c"]}]}],
+         "libs/laze.yml": [{"defaults": {"app": {"allowlist": ["hw"]}}, "modules": [{"name": "helper", "sources": ["helper.c"]}],
+                            "apps": [{"name": "libtest", "sources": ["lt.c"], "depends": ["helper"]}], "subdirs": ["deep"]}],
+         "libs/deep/laze.yml": [{"modules": [{"name": "deepmod", "sources": ["deep.c"]}], "apps": [{"name": "deeptest", "sources": ["dt.c"], "depends": ["deepmod"]}]}]}
+    out.append((f, {}))
+    # 37: '-name' removes the inherited hard, optional and conditional entry alike (and itself)
+    f = base([{"name": "logging", "sources": ["log.c"], "env": {"export": {"CFLAGS": ["-DWITH_LOGGING"]}}}, {"name": "tracing", "sources": ["trace.c"]},
+              {"name": "debug", "sources": ["debug.c"]}, {"name": "core", "sources": ["core.c"]},
+              {"name": "quiet", "sources": ["quiet.c"], "depends": ["-logging", "-tracing"]},
+              {"name": "half", "sources": ["half.c"], "depends": ["-tracing", "extra"], "uses": ["-core"]},
+              {"name": "loud", "sources": ["loud.c"]}, {"name": "extra", "sources": ["extra.c"], "depends": []}],
+             [{"name": "app", "sources": ["main.c"], "depends": ["quiet", "half", "loud", "debug"]},
+              {"name": "app2", "sources": ["main.c"], "depends": ["quiet"], "selects": ["-core"]}],
+             defaults={"module": {"depends": ["?logging", {"debug": ["tracing"]}], "uses": ["core"]}, "app": {"selects": ["core"]}})
+    out.append((f, {}))
+    # 38: a name that is both a selected module and provided by other selected modules (a download and a
+    #     generated-file module): users of the name import the module AND its providers (tag file, outs alias, exports)
+    mods = [{"name": "log", "sources": ["log.c"]},
+            {"name": "log_rtt", "download": git, "provides": ["log"], "sources": ["rtt.c"], "env": {"export": {"CFLAGS": ["-DLOG_RTT"]}}},
+            {"name": "log_strings", "provides": ["log"], "is_build_dep": True, "build": {"cmd": ["gen > ${out}"], "out": ["gen/log_strings.h"]},
+             "env": {"export": {"CFLAGS": ["-DLOG_STRINGS"]}}},
+            {"name": "sensor", "sources": ["sensor.c"], "depends": ["log"]},
+            {"name": "quiet_sensor", "sources": ["qs.c"], "uses": ["log"]}]
+    out.append((dlbase(mods, [{"name": "app", "sources": ["main.c"], "depends": ["log", "sensor"]},
+                              {"name": "app2", "sources": ["main.c"], "depends": ["quiet_sensor", "log_rtt"]}]), {}))
+    # 39: -D VAR+=value appends ONE element, whatever blanks the value has; visible through var_options and in the text
+    f = base([], [{"name": "app", "sources": ["main.c"], "env": {"global": {"defines": ["APP"]}}}],
+             builders=[{"name": "b0", "var_options": {"defines": {"prefix": "-D"}}, "env": {"defines": ["B0"]}}, {"name": "b1"}])
+    f["laze-project.yml"][0]["contexts"][0]["rules"] = [{"name": "CC", "in": "c", "out": "o", "cmd": "cc ${defines} ${CFLAGS} -c ${in} -o ${out}"}, RULES[1]]
+    out.append((f, {"define": ["defines+=GREETING=\"hello world\"", "CFLAGS+=two  blanks", "CFLAGS+= lead"]}))
     # 31: a builder that both `disables:` a module and `provides_unique:` a feature; other providers of
     #     the feature (and the disabled module) are reached by apps: unique means the others are refused
     mods = [{"name": "stdio_uart", "provides": ["stdio"], "sources": ["uart.c"]},
